@@ -14,7 +14,7 @@ VERIF = os.path.dirname(os.path.dirname(os.path.abspath(__file__)))
 REPO = os.environ.get("VERIF_REPO", "/repo")
 LEAN_DIR = os.path.join(VERIF, "lean")
 CACHE = os.path.join(VERIF, ".cache")
-EVIDENCE = os.path.join(VERIF, "evidence")
+EVIDENCE = os.environ.get("VERIF_EVIDENCE_DIR", os.path.join(VERIF, "evidence"))  # redirected while trying mutants
 REPLAYS = os.path.join(VERIF, "replays")
 DRIVER = os.path.join(LEAN_DIR, ".lake", "build", "bin", "driver")
 GUARD = "QUILL_VERIF"
